@@ -16,6 +16,7 @@ import Fir.Proofs.SimdDiv16Lemmas
 import Fir.Proofs.SoftLemmas
 import Fir.Proofs.FloatLemmas
 import Fir.Props.C06
+import Fir.Proofs.IeeeLemmas
 
 namespace Fir.C02
 open Fir
@@ -170,5 +171,15 @@ theorem simd_div8_source_as_modelled : Fir.Gen.simdDiv8Skeleton = [
   ("src/alpha/u8x4/avx2.rs::divide_alpha_8_pixels", "set1_epi32(0xff000000u32 as i32) set1_ps(255.0 * 256.0) set1_epi16(0xff) cvtepi32_ps cvtps_epi32 div_ps min_epu16 mulhrs_epi16 min_epu16 mulhrs_epi16 packus_epi16"),
   ("src/alpha/u8x2/sse4.rs::divide_alpha_8_pixels", "set1_epi16(0xff00u16 as i16) set1_epi16(0xff) set1_ps(255.0 * 256.0) cvtepi32_ps cvtps_epi32 div_ps cvtepi32_ps cvtps_epi32 div_ps mulhrs_epi16 min_epu16"),
   ("src/alpha/u8x2/avx2.rs::divide_alpha_16_pixels", "set1_epi16(0xff00u16 as i16) set1_epi16(0xff) set1_ps(255.0 * 256.0) cvtepi32_ps cvtps_epi32 div_ps cvtepi32_ps cvtps_epi32 div_ps mulhrs_epi16 min_epu16")] := by rfl
+
+/-! ### the premises about rounding discharged for IEEE-754 round-to-nearest-even (`Fir.Ieee.flP`) -/
+
+section IeeeInstances
+open Fir.Ieee Fir.Flt
+/-- `reassoc_err` for IEEE binary64 -/
+theorem reassoc_err_ieee (x k : ℕ → ℚ) (t t' : Shape) (hperm : t.leaves.Perm t'.leaves) :
+    |t.eval (flP 53) x k - t'.eval (flP 53) x k| ≤ (gam (1 / 2 ^ 53) t.depth + gam (1 / 2 ^ 53) t'.depth) * t.absSum x k :=
+  reassoc_err (flP 53) (1 / 2 ^ 53) (by positivity) (flP_relErr 53 (by norm_num)) x k t t' hperm
+end IeeeInstances
 
 end Fir.C02
